@@ -191,6 +191,31 @@ def main(argv):
                     outside.append(ob.name)
                     continue
                 tasks.append((key, ob, obligation_smt2(V, ob), 'obl'))
+            # vacuity guard at every point where something is *assumed* (a callee's contract after a call, the
+            # invariants at a loop head): what is assumed there must be consistent in itself, as a whole and in each
+            # case its conditional postconditions distinguish.  Only the hypotheses added by the assumption are used,
+            # not the caller's context: a case the *caller* excludes is legitimate, a contract that excludes its own
+            # case is not (it would discharge everything that follows on that path).
+            for k_, (what_, reach_, blk_, hb_, ha_, case_) in enumerate(getattr(V, 'assumption_points', [])):
+                sp_ = z3.Solver()
+                for h in V.global_hyps:
+                    sp_.add(h)
+                for (f_, b_) in V.hyps[hb_:ha_]:
+                    sp_.add(f_)
+                sp_.add(reach_)
+                if case_ is not None:
+                    sp_.add(case_)
+                ps_ = _Pseudo('%s#vacuity.assumed[%d]' % (V.shown, k_), 'vacuity', what_)
+                ps_.before = None
+                if case_ is not None:
+                    # the case taken alone (values of the caller's own variables are part of its terms) must be possible
+                    sb_ = z3.Solver()
+                    for h in V.global_hyps:
+                        sb_.add(h)
+                    sb_.add(reach_)
+                    sb_.add(case_)
+                    ps_.before = sb_.to_smt2()
+                tasks.append((key, ps_, sp_.to_smt2(), 'point'))
             fr['obligations'] = len(V.obls) - len([o for o in outside if o.startswith(V.shown + '#')])
             fr['assumed_callee_contracts'] = sorted(getattr(V, 'used_contracts', ()))
             # vacuity guards: preconditions satisfiable, exit reachable
@@ -227,7 +252,9 @@ def main(argv):
     order = ('z3-5.1', 'z3-4.8', 'cvc5')
     futs = []
     for (key, ob, smt, mode) in tasks:
-        if mode == 'cover':
+        if mode == 'point':
+            futs.append(pool.submit(solve_point, smt))
+        elif mode == 'cover':
             futs.append(pool.submit(solve_text, smt, min(timeout, 5), CACHE, ob.name, ('z3-5.1',), None))
         else:
             futs.append(pool.submit(solve_text, smt, timeout, CACHE, ob.name, order, min(timeout, 15)))
@@ -236,7 +263,10 @@ def main(argv):
         r = fu.result()
         r.update({'name': ob.name, 'func': key, 'kind': ob.kind, 'pos': getattr(ob, 'pos', ''), 'text': getattr(ob, 'text', ''), 'size': len(smt), 'mode': mode,
                   'meta': getattr(ob, 'meta', None), 'special': getattr(ob, 'special', None)})
-        if mode == 'cover':
+        if mode == 'point' and r['verdict'] == 'unsat' and getattr(ob, 'before', None):
+            if solve_point(ob.before)['verdict'] == 'unsat':
+                r['verdict'] = 'unknown'      # the caller's own values exclude this case: legitimate
+        if mode in ('cover', 'point'):
             if r['verdict'] == 'unsat':
                 r['verdict'] = 'vacuous'
                 results.append(r)
@@ -336,6 +366,14 @@ def main(argv):
     for (name, p, suffix) in violations:
         print('VIOLATION property=%s replay=%s%s' % (pid, p, suffix))
     return 1 if violations else 0
+
+
+def solve_point(smt2):
+    """refutation attempt of a set of hypotheses (E-matching only, 3 s): `unsat` means the program point is
+    vacuous; anything else means no inconsistency was found"""
+    from .verify import run_inprocess
+    res, dt, _ = run_inprocess(smt2, 3, ematch_only=True)
+    return {'verdict': res, 'solver': 'z3-5.1', 'time': round(dt, 3), 'details': {'z3-5.1/ematch': (res, round(dt, 3))}, 'path': None, 'model': None}
 
 
 class _Pseudo:
